@@ -244,9 +244,40 @@ def run(rep, tier):
         clause_a(facts, rep)
         clause_b(facts, rep)
         clause_c(facts, rep)
+        clause_d(facts, rep)
     rep.trust('clang 14 front end and constant evaluator', 'Python big integers / fractions', 'Clinger exact fast-path conditions',
               'simd_str2int contract: the digit count it stores never exceeds the requested count')
     rep.assumptions += [
         'decides every row of the power-of-ten / shift tables, that every subscript into them is in range on all paths, and that the fast-path guards lie inside the region where the exact argument applies',
         'does NOT decide correct rounding, the Eisel-Lemire bail-out logic, the big-decimal algorithm or digit accumulation (numerical results are outside a sound static argument in reach)',
     ]
+
+
+def clause_d(facts, rep):
+    """the truncation flag of parseNumber ("digits were dropped that may be non-zero") is monotone: after its
+    zero initialisation it is only ever set (constant 1) or OR-ed into. A store of a computed value can clear
+    an earlier 1 and lets a truncated mantissa be rounded as if it were exact."""
+    n = 0
+    seen = set()
+    for f in facts.functions:
+        if f.cls_qn != PARSER or f.short != 'parseNumber' or f.name.split('<')[0] in seen:
+            continue
+        seen.add(f.name.split('<')[0])
+        rep.fn(f)
+        # bind the flag: the int local passed as the truncation argument to the slow-path conversion
+        flag = None
+        for bid, i, s, e in f.walk():
+            if e.get('k') == 'call' and e.get('cname') == 'parseFloatEiselLemire64' and len(e.get('args', [])) >= 5:
+                a = strip(e['args'][4])
+                if a is not None and a.get('k') == 'ref':
+                    flag = a['id']
+        rep.require(flag is not None, 'C04.d: truncation flag of parseNumber not bound')
+        if flag is None:
+            continue
+        for bid, i, s, e in f.walk():
+            if e.get('k') == 'bin' and e['op'] in ('=', '&=', '^=', '-=', '+=', '|=') and strip(e['l']).get('id') == flag:
+                n += 1
+                ok = (e['op'] == '=' and cval(e['r']) == 1) or e['op'] == '|='
+                rep.check(ok, 'E2.trunc-monotone', f.qn, show(e), locline(e['loc']),
+                          'the truncation flag may only be set to 1 or OR-ed: a computed store can clear a flag set by an earlier dropped digit', facts.config)
+    rep.require(n >= 3, 'C04.d: stores to the truncation flag found: %d' % n)
